@@ -21,6 +21,9 @@ def hx(v):
 def parse(tok):
     i = tok.index(":")
     ty, body = tok[:i], tok[i + 1:]
+    if ty == "NC":
+        # the driver observed a field element that is not `==` to the canonical element of the same value
+        return ("NC", parse(body))
     if ty == "n":
         return ("n", int(body))
     if ty == "t":
